@@ -952,8 +952,11 @@ def campaign_field(ck: Check, n: int) -> None:
         nl = "-" if fb["nullable"] is None else ("1" if fb["nullable"] else "0")
         bits = f"({1 if fb['default_factory'] else 0} {nl} {1 if fb['required'] else 0} {1 if fb['type_has_null'] else 0} {1 if fall_back else 0})"
         reqs.append(f"types.field {tt.opt_bits(o)} {bits} {tt.sx(d)}")
-    reps = ck.driver.run(reqs)
-    for (d, o, fb), rep in zip(cases, reps):
+        reqs.append(f"types.fieldinv {tt.opt_bits(o)} {bits} {tt.sx(d)}")
+    reps2 = ck.driver.run(reqs)
+    reps, finv = reps2[0::2], reps2[1::2]
+    thm = ck.campaign("field_no_double_optional_partial / no_double_optional_typing_partial on IR trees: hypotheses (wfTree, anyContPlain, optRegion) by the driver, conclusion on the REAL DataModelFieldBase.type_hint; noDbl vs the oracle's substring test")
+    for (d, o, fb), rep, rfi in zip(cases, reps, finv):
         camp.evaluations += 1
         try:
             dt = tt.build(d, o)
@@ -980,7 +983,30 @@ def campaign_field(ck: Check, n: int) -> None:
             ck.disagree(camp, {"tree": d, "opts": list(o), "field": fb}, model, impl)
         elif len(camp.samples) < 2:
             camp.samples.append({"tree": d, "opts": list(o), "field": fb, "hint": impl})
+        # the theorem on this case: hypotheses evaluated by the driver, conclusion looked up on the real hint
+        if rfi.startswith("ok "):
+            _, hyp, pe, nd, nd_type = rfi.split(" ")
+            thm.evaluations += 1
+            dbl = "Optional[Optional[" in impl
+            if hyp[0] == "1" and unhx(pe) == impl:
+                thm.hit("checked:noDbl_vs_substring")
+                if (nd == "1") == dbl:
+                    ck.disagree(thm, {"tree": d, "opts": list(o), "field": fb, "what": "noDbl (Lean) vs 'Optional[Optional[' in the real hint"}, nd == "1", not dbl)
+            if not o[0]:
+                if hyp == "111":
+                    thm.hit("inside: wfTree, anyContPlain, optRegion")
+                    thm.distinct.add((json.dumps(d, sort_keys=True, default=str), o, json.dumps(fb, sort_keys=True)))
+                    if dbl:
+                        ck.disagree(thm, {"tree": d, "opts": list(o), "field": fb, "theorem": "field_no_double_optional_partial"}, "no Optional[Optional[ in the field's hint", impl)
+                    elif len(thm.samples) < 2 and tt.size(d) > 2:
+                        thm.samples.append({"tree": d, "opts": list(o), "field": fb, "hint": impl})
+                else:
+                    why = ("" if hyp[0] == "1" else " not wfTree") + ("" if hyp[1] == "1" else " not anyContPlain (C13-F5)") + ("" if hyp[2] == "1" else " not optRegion (C13-F2)")
+                    thm.hit("outside:" + why)
+                    if hyp[0] == "1":
+                        thm.hit(("outside, real hint has a double Optional:" if dbl else "outside, real hint has none:") + why)
     camp.wall_s = time.time() - t0
+    ck.notes["field theorem coverage (IR trees)"] = {k: v for k, v in sorted(thm.distribution.items())}
     # the property's own oracle one level up: the annotation of the FIELD in all 8 spellings
     orc = ck.campaign("oracle on the field annotations (DataModelFieldBase.type_hint / TypedDict member): well-formed and the same type in all 8 spellings")
     t1 = time.time()
@@ -1120,6 +1146,11 @@ def run(ck: Check) -> None:
     if not quick:
         campaign_exhaustive(ck)
     campaign_field(ck, 600 if quick else 6000)
+    from . import c13_e2e  # (imports this module)
+
+    ck.assumptions.append("end to end: the documents are the family of vlib/props/c13_e2e.py (nullable type lists / anyOf / oneOf with null over scalars, free-form and typed containers, references; alone, as union alternatives, as items / values; JSON Schema and OpenAPI 3.1; 4 model kinds); the stage-1 trees are read at the end of the real parse_raw()")
+    c13_e2e.campaign_e2e(ck, 25 if quick else 300)
+    ck.search_hooks.append(lambda ck: c13_e2e.campaign_e2e(ck, 150, fork="e2e-search", label="search"))
     ck.search_hooks.append(search_from_disagreements)
     ck.search_hooks.append(search_trees)
     known_findings(ck)
@@ -1129,7 +1160,11 @@ def replay(ck: Check, path: str) -> int:
     data = json.loads(open(path).read())
     inp = data.get("input") or {}
     camp = ck.campaign("replay")
-    if "tree" in inp and inp.get("field") is not None:
+    if "document" in inp and "input_file_type" in inp:
+        from . import c13_e2e
+
+        c13_e2e.replay_document(ck, inp)
+    elif "tree" in inp and inp.get("field") is not None:
         oracle_field(ck, camp, inp["tree"], inp["field"])
     elif "tree" in inp:
         oracle_tree(ck, camp, inp["tree"], dens=model_dens(ck, inp["tree"]))
